@@ -488,6 +488,12 @@ def gen_choice(tier, rnd):
         cells = ["red", "Red", "RED", "green", "Green", "blue", "blu", "bluee", " red", "red ", "1", "2", "10", "01", "a", "b", "c", "a b",
                  "grün", "GRÜN", "rot", "x", "X", '"red"', "it''s", "it's", "1.5", "-1", "-", "A", 'a"b', 'a\\"b', "True", "None", ",", "a;b", ";"]
         yield base("Choice", fmt, "", rule, cells, empty=empty)
+    # long lists of choices, the same field asked again after it has rejected cells: what it accepts is what the rule lists
+    for n in (21, 30, 64):
+        rule = ", ".join("c%02d" % i for i in range(n))
+        last = "c%02d" % (n - 1)
+        for fmt in ("delimited", "excel"):
+            yield base("Choice", fmt, "", rule, [last, "nope", last, "c20", "c00", "c19", "zz", "c%02d" % (n // 2), last, "C00", "c00"], empty=True)
     for rule, empty, length in itertools.product(["x", '"some text"', "12", "", "  ", "a b", "a,", '"x', "'y'", "ä"], (False, True), ("", "1", "2", "9", "1...")):
         cells = ["x", "X", "some text", "Some text", "12", "012", "a", "y", "'y'", " x", "ä", "Ä"]
         yield base("Constant", "delimited", length, rule, cells, empty=empty)
